@@ -4,7 +4,9 @@
 //!        "headers":[[name,value]…], "body":str, "allow_log":bool, "ct":str|null, "via":"direct"|"router"}
 //!   R = {"id","rank","status_code","target","codes","excl","sampling","hf":[{"action","header","value","id","target_hash"}],
 //!        "bf":[{"kind":"text","action","content","id","target_hash"} | {"kind":"html","action","value","inner_value","element_tree","css_selector","id","target_hash"}],
-//!        "log","reset","stop","ru","lu","th"}   (every key but id/rank optional; missing = null)
+//!        "log","reset","stop","ru","lu","th","ips":[cidr…]}   (every key but id/rank optional; missing = null)
+//!   optional "ip": client address of the request (router mode; with "ips" it replays defect D1: a rule matched
+//!   through two of its ip ranges must reach the action once — oracle `dup-match`)
 //! obs:  {"action": serde_json(Action::from_routes_rule), "codes":[{"c":code,"ops":[{"op","r","ids"}…]}…]}
 //!   per response code the observers run in the given sequence on a fresh clone of the action;
 //!   "ids" = get_applied_rule_ids() after the call, in LinkedHashSet order.
@@ -301,7 +303,8 @@ pub fn rule_json(r: &Value) -> Result<Value, String> {
     Ok(json!({
         "id": id,
         "rank": rank,
-        "source": {"path": "/x", "response_status_codes": get(r, "codes"), "exclude_response_status_codes": get(r, "excl"), "sampling": get(r, "sampling")},
+        "source": {"path": "/x", "response_status_codes": get(r, "codes"), "exclude_response_status_codes": get(r, "excl"), "sampling": get(r, "sampling"),
+                   "ips": match get(r, "ips") { Value::Array(a) => Value::Array(a.iter().map(|x| json!({"in_range": x})).collect()), _ => Value::Null }},
         "target": get(r, "target"),
         "status_code": get(r, "status_code"),
         "header_filters": hf,
@@ -360,6 +363,11 @@ pub fn request(case: &Value, config: Option<&RouterConfig>) -> Result<Request, S
         Value::String(s) => request.path_and_query_skipped.skipped_query_params = Some(s.clone()),
         _ => return Err("skipped".into()),
     }
+    match get(case, "ip") {
+        Value::Null => {}
+        Value::String(s) => request.remote_addr = Some(s.parse().map_err(|_| "ip".to_string())?),
+        _ => return Err("ip".into()),
+    }
     Ok(request)
 }
 
@@ -386,8 +394,8 @@ pub fn routes_of(case: &Value, rules: Vec<Rule>) -> Result<(Vec<Arc<Route<Rule>>
             }
             let request = request(case, Some(&config))?;
             let routes = router.match_request(&request);
-            if routes.len() != n {
-                return Err(format!("router matched {} of {} trivially matching rules", routes.len(), n));
+            if routes.len() < n {
+                return Err(format!("router matched {} of {} rules (the case is about matched rules only)", routes.len(), n));
             }
             Ok((routes, request))
         }
@@ -531,6 +539,13 @@ fn run(case: &Value) -> Obs {
         Ok(x) => x,
         Err(e) => return Obs::invalid(&e),
     };
+    let dup_match = {
+        let mut ids: Vec<&str> = routes.iter().map(|r| r.id()).collect();
+        ids.sort();
+        let k = ids.len();
+        ids.dedup();
+        ids.len() < k && !flags.iter().any(|f| f == "dup-ids")
+    };
     let action = Action::from_routes_rule(routes, &request, None);
     let action_json = serde_json::to_value(&action).unwrap();
     let mut resp_headers = headers.clone();
@@ -573,6 +588,9 @@ fn run(case: &Value) -> Obs {
     o.tags.push(format!("rules:{n_rules}"));
     o.tags.push(format!("via:{}", s(case, "via").unwrap_or_else(|| "direct".to_string())));
     o.tags.extend(flags);
+    if dup_match {
+        return o.fail("the router returned a matched rule more than once: its effects are applied twice", "dup-match");
+    }
     o
 }
 
